@@ -178,13 +178,20 @@ Qed.
 
 Definition s_eq : str := lit " = ".
 
+Lemma lstrip_sp x : lstrip (" "%char :: x) = lstrip x.
+Proof. reflexivity. Qed.
+Lemma lstrip_eq x : lstrip ("="%char :: x) = "="%char :: x.
+Proof. reflexivity. Qed.
+
 Lemma key_value_kv w v :
   forallb is_word w = true -> w <> [] -> (v = [] \/ first_ok v = true) ->
   key_value (w ++ s_eq ++ v) = Some (w, v).
 Proof.
   intros Hw Nw Hv. unfold key_value. rewrite span_word_app; [|assumption|reflexivity].
   destruct w as [|c w]; [congruence|].
-  cbn -[lstrip]. cbn. destruct Hv as [->|Hv]; [reflexivity|]. now rewrite lstrip_first_ok.
+  change (s_eq ++ v) with (" "%char :: "="%char :: " "%char :: v).
+  rewrite lstrip_sp, lstrip_eq. change (ascii_eqb "="%char c_equal) with true. cbv iota.
+  rewrite lstrip_sp. destruct Hv as [->|Hv]; [reflexivity|]. now rewrite lstrip_first_ok.
 Qed.
 
 (* a key that cannot be taken for End or Group: its first letter is neither E nor G *)
